@@ -15,6 +15,20 @@ WA = 'mistral.engine.actions.WorkflowAction'
 def run(ctx):
     _run(ctx)
     _resolution_rule(ctx)
+    _namespace_priority(ctx)
+    # re-running a task of a sub-workflow puts every enclosing workflow and
+    # parent task back to RUNNING (shared with C12.R3)
+    from mstatic.rules import c12 as _c12
+    r9 = ctx.rule('R9', 'a re-run inside a sub-workflow propagates to all '
+                  'parents, whatever their state', 'PAIR/GD')
+    _c12.recursive_rerun(ctx, r9)
+    # accounting over a task's children reads the polymorphic collection:
+    # a sub-workflow is a child like a plain action (lost hand-offs are
+    # recovered by the integrity check for both)
+    from mstatic.rules import c07 as _c07
+    r10 = ctx.rule('R10', 'child accounting uses task_ex.executions, not a '
+                   'type-specific collection (shared with C07.R7)', 'WMW')
+    _c07.child_collections(ctx, r10)
 
 
 def _run(ctx):
@@ -348,3 +362,58 @@ def _resolution_rule(ctx):
              'name' % sorted(dep), ctx.loc(f, rel[0]))
     t.undecided(r7, 'whether the parent belongs to a workbook and what the '
                 'two lookups found')
+
+
+def _namespace_priority(ctx):
+    """load_workflow_definition looks in [caller's namespace, default ''] and
+    the caller's namespace wins: ordered by namespace DESCENDING ('' sorts
+    first ascending), first row taken."""
+    from mstatic import qshape
+    prog = ctx.prog
+    r8 = ctx.rule('R8', 'a workflow of the caller\'s namespace takes '
+                  'precedence over a same-named one in the default '
+                  'namespace', 'QSHAPE')
+    f = prog.func('mistral.db.v2.sqlalchemy.api.load_workflow_definition')
+    P = f.params
+    src = U.canon_expr(f.node, ast.Module(body=[], type_ignores=[])) \
+        if False else None
+    full = [U.canon_expr(f.node, x.value, 4) for x in own_nodes(f.node)
+            if isinstance(x, ast.Return) and x.value is not None]
+    defs = {}
+    for x in own_nodes(f.node):
+        if isinstance(x, ast.Assign) and isinstance(x.targets[0], ast.Name):
+            defs.setdefault(x.targets[0].id, []).append(x.value)
+    txt = ' '.join(norm(v, 400) for vs in defs.values() for v in vs) + \
+        ' '.join(norm(v, 400) for v in full)
+    r8.check('.namespace.in_([%s, \'\'])' % P[1] in txt or
+             '.namespace.in_([\'\', %s])' % P[1] in txt,
+             ctx.construct(f, extra='caller namespace or default'),
+             'the lookup is not restricted to the caller\'s namespace and '
+             'the default one', ctx.loc(f))
+    r8.check('.name == %s' % P[0] in txt,
+             ctx.construct(f, extra='by name'),
+             'the lookup does not filter on the workflow name', ctx.loc(f))
+    obs = [c for c in own_nodes(f.node) if isinstance(c, ast.Call) and
+           U.call_name(c) == 'order_by']
+    ok = False
+    for c in obs:
+        a = U.canon_expr(f.node, c.args[0], 4) if c.args else None
+        if a is not None and isinstance(a, ast.Call) and \
+                U.call_name(a) == 'desc' and \
+                norm(a.func.value).endswith('.namespace'):
+            cfg = ctx.cfg(f)
+            n = cfg.node_of(c)
+            # applied on every path to the return (an always-true guard
+            # such as `if order_by is not None` is tolerated)
+            facts = [(norm(U.canon_expr(f.node, a_)), t)
+                     for a_, t in U.guard_atoms(cfg, n)]
+            ok = all('order_by' in x[0] or '.desc()' in x[0]
+                     for x in facts)
+    firsts = [c for c in own_nodes(f.node) if isinstance(c, ast.Call) and
+              U.call_name(c) == 'first']
+    r8.check(ok and bool(firsts),
+             ctx.construct(f, extra='namespace descending, first row'),
+             'the candidates are not ordered by namespace descending before '
+             'the first one is taken: the default-namespace definition wins '
+             'and the child runs (and records) the wrong namespace',
+             ctx.loc(f))
